@@ -1,8 +1,10 @@
 (* C06 driver.  `run <role> <opts> <ev>,<ev>,...`
    model column : world=c:<0|1>,<id>:<-|F|R>,...   the terminal state of the connection and of every stream the script
                   mentions, computed by the extracted specification (Spec/C06Liveness.v) from the script alone
-   spec column  : must=<targets>   the wait targets whose calls must have completed at quiescence after the script
-                  (`*` = every target, the connection is lost; `n` = calls that wait on nothing the peer controls) *)
+   spec column  : must=<targets> bp=<0|1>  the wait targets whose calls must have completed at quiescence after the
+                  script (`*` = every target, the connection is lost; `n` = waits on nothing the peer controls; `<id>` =
+                  receive side of the stream; `w<id>` = send side (peer credit; ended by STOP_SENDING); `wc` = credit for
+                  opening / writing h3's own streams); bp=0: no credit is withheld, every send-side target must complete *)
 let parse_ev (s : string) : pev =
   let n = String.length s in
   if s = "~" then ERun
@@ -16,16 +18,27 @@ let parse_ev (s : string) : pev =
     | [id; k] when String.length k > 0 && k.[0] = 'R' -> EReset (n_of_string id)
     | [id; k] when String.length k > 0 && k.[0] = 'S' -> EStop (n_of_string id)
     | _ -> failwith ("bad event " ^ s)
+(* back-pressure: the case withholds credit (initial budget / stream credits in the options, or a `W*:` default) *)
+let has_backpressure opts evs_raw =
+  List.exists (fun o -> String.length o > 1 && (o.[0] = 'q' || o.[0] = 'u' || o.[0] = 'h')
+                        && (match int_of_string_opt (String.sub o 1 (String.length o - 1)) with Some _ -> true | None -> false))
+    (String.split_on_char '+' opts)
+  || List.exists (fun e -> String.length e > 2 && String.sub e 0 3 = "W*:") evs_raw
 let handle ws = match ws with
-  | "run" :: _role :: _opts :: script :: _ ->
-      let evs = if script = "-" then [] else List.map parse_ev (String.split_on_char ',' script) in
+  | "run" :: _role :: opts :: script :: _ ->
+      let raw = if script = "-" then [] else String.split_on_char ',' script in
+      let evs = List.map parse_ev raw in
+      let bp = has_backpressure opts raw in
       let ids = List.sort compare (List.map int_of_n (mentioned evs)) in
-      let st id = match rx_state evs (n_of_int id) with TOpen -> "-" | TFin -> "F" | TReset -> "R" in
+      let st id = (match rx_state evs (n_of_int id) with TOpen -> "-" | TFin -> "F" | TReset -> "R")
+                  ^ (if stopped evs (n_of_int id) then "s" else "") in
       let world = String.concat "," (("c:" ^ (if lost evs then "1" else "0")) :: List.map (fun id -> string_of_int id ^ ":" ^ st id) ids) in
       let must =
         if lost evs then "*"
         else String.concat "," ("n" :: (if must_complete evs WConn then ["c"] else [])
-               @ List.filter_map (fun id -> if must_complete evs (WStream (n_of_int id)) then Some (string_of_int id) else None) ids) in
-      "world=" ^ world ^ " | must=" ^ must
+               @ (if must_complete_bp bp evs WCredit then ["wc"] else [])
+               @ List.filter_map (fun id -> if must_complete evs (WStream (n_of_int id)) then Some (string_of_int id) else None) ids
+               @ List.filter_map (fun id -> if must_complete_bp bp evs (WSend (n_of_int id)) then Some ("w" ^ string_of_int id) else None) ids) in
+      "world=" ^ world ^ " | must=" ^ must ^ " bp=" ^ (if bp then "1" else "0")
   | _ -> "driver-error unknown-case"
 let () = run_lines handle
